@@ -114,6 +114,7 @@ func TakeSnapshot() *Snapshot {
 type Verdict struct {
 	Running      int
 	Timed        int
+	TimedSend    int // of Timed: goroutines in the server's 60 s send timeout (sendRuntimeMessage)
 	Paused       int
 	Blocked      int
 	RunningDescr []string
@@ -143,6 +144,9 @@ func (s *Snapshot) Classify() Verdict {
 			}
 			if timed {
 				v.Timed++
+				if g.Has("sendRuntimeMessage") {
+					v.TimedSend++
+				}
 				v.RunningDescr = append(v.RunningDescr, g.Header+" (timed wait)")
 			} else {
 				v.Blocked++
@@ -153,6 +157,12 @@ func (s *Snapshot) Classify() Verdict {
 		}
 	}
 	return v
+}
+
+// SendTimerStall: every goroutine is blocked, nothing is parked by the harness, and the only thing that can still
+// happen is the expiry of the server's send timeout: a write that nobody will take for a minute.
+func (v Verdict) SendTimerStall() bool {
+	return v.Running == 0 && v.Paused == 0 && v.Timed > 0 && v.TimedSend == v.Timed
 }
 
 // Stalled: nothing runs by itself right now (timers of the SDK may still be pending).
